@@ -436,10 +436,10 @@ Proof.
 Qed.
 
 (* ------------------------------------------------------------------ everything else leaves the flags alone *)
-Lemma nth_app_new l ms h : flags (nth h (l ++ [new_cfg ms]) dummy_cfg) = flags (nth h l dummy_cfg)
-  /\ c_vars (nth h (l ++ [new_cfg ms]) dummy_cfg) = c_vars (nth h l dummy_cfg)
-  /\ c_dfa (nth h (l ++ [new_cfg ms]) dummy_cfg) = c_dfa (nth h l dummy_cfg)
-  /\ c_cf (nth h (l ++ [new_cfg ms]) dummy_cfg) = c_cf (nth h l dummy_cfg).
+Lemma nth_app_new l ms h : flags (nth h (l ++ [new_cfg_p ms]) dummy_cfg) = flags (nth h l dummy_cfg)
+  /\ c_vars (nth h (l ++ [new_cfg_p ms]) dummy_cfg) = c_vars (nth h l dummy_cfg)
+  /\ c_dfa (nth h (l ++ [new_cfg_p ms]) dummy_cfg) = c_dfa (nth h l dummy_cfg)
+  /\ c_cf (nth h (l ++ [new_cfg_p ms]) dummy_cfg) = c_cf (nth h l dummy_cfg).
 Proof.
   destruct (Nat.lt_ge_cases h (length l)) as [H|H].
   - rewrite app_nth1 by exact H. auto.
